@@ -650,7 +650,13 @@ pub fn foreign_attr(rng: &mut Rng, r: &Recv) -> String {
         names.extend(l.iter().cloned());
     }
     if names.is_empty() || !rng.chance(1, 3) {
-        return (*rng.pick(&FOREIGN)).to_string();
+        // (for a receiver that reads `doc` a doc comment is not a foreign attribute)
+        loop {
+            let f = *rng.pick(&FOREIGN);
+            if !(names.iter().any(|n| n == "doc") && (f.starts_with("///") || f.starts_with("#[doc"))) {
+                return f.to_string();
+            }
+        }
     }
     let n = rng.pick(&names).clone();
     if let Some(bare) = n.strip_prefix("::") {
